@@ -313,6 +313,18 @@ def make_program(rnd, features, threads=False):
                         ind + 'except (ValueError, StopIteration):', ind + '    pass']
             return [ind + 'try:', ind + '    g1 = %s(%s)' % (tgt, a), ind + '    g2 = %s(%s)' % (tgt, a), ind + '    next(g1)', ind + '    next(g2)',
                     ind + '    next(g1)', ind + '    next(g2)', ind + '    g1.close()', ind + 'except (ValueError, StopIteration):', ind + '    pass']
+        if k == 'co' and 'cotasks' in features and rnd.random() < 0.6:
+            # two coroutines alive at once on one thread, stepped like tasks of an event loop: the one started first
+            # may finish first while the other is still suspended
+            cos = [x for x in names if kinds[x] == 'co']
+            nm2 = rnd.choice(cos)
+            b = '%d, %d' % (rnd.randrange(0, 12), rnd.randrange(0, 4))
+            out = [ind + 'c1 = %s(%s)' % (tgt, a), ind + 'c2 = P.fn(%r)(%s)' % (nm2, b), ind + 'live = [c1, c2]',
+                   ind + 'for rnd_ in range(%d):' % rnd.randrange(2, 7), ind + '    for c in list(live):', ind + '        try:',
+                   ind + '            c.send(None if rnd_ == 0 else rnd_)', ind + '            A(%d)' % rnd.choice([1, 5, 30]),
+                   ind + '        except (ValueError, StopIteration):', ind + '            live.remove(c)',
+                   ind + 'for c in live:', ind + '    c.close()']
+            return out
         if k == 'co':
             return [ind + 'try:', ind + '    c = %s(%s)' % (tgt, a), ind + '    c.send(None)', ind + '    A(30)', ind + '    c.send(1)', ind + '    c.send(2)',
                     ind + 'except (ValueError, StopIteration):', ind + '    pass', ind + 'c.close()']
